@@ -96,6 +96,8 @@ type c16Case struct {
 	Root     bool   `json:"group_prefix_is_root,omitempty"` // the enclosing group is Group("/")
 	Kind     string `json:"kind"`                           // subset | bad
 	Cache    int    `json:"route_cache_capacity,omitempty"` // > 0: the router caches dynamic matches (the probes are then issued twice, in two orders)
+	// CustomNF: a custom NotFound handler is installed (no global middleware); the probes are issued twice, in two orders
+	CustomNF bool `json:"custom_not_found_handler,omitempty"`
 }
 
 func c16Gen(tier string, emit func(c16Case)) {
@@ -119,7 +121,7 @@ func c16Gen(tier string, emit func(c16Case)) {
 	}
 	for mask := 0; mask < 128; mask++ {
 		for _, uses := range []bool{false, true} {
-			for bi, base := range []string{"/", "/api/", "", "/{t}/", "/{t:[a-z]{4}}/"} {
+			for bi, base := range []string{"/", "/api/", "", "/{t}/", "/{t:[a-z]{4}}/", "/v1.2/"} {
 				for _, grp := range []bool{false, true} {
 					if tier == "quick" && (mask+bi+b2i(grp)+b2i(uses))%2 == 1 {
 						continue
@@ -128,6 +130,10 @@ func c16Gen(tier string, emit func(c16Case)) {
 					if !grp {
 						// the same table on a router that caches dynamic matches (capacity 1 or 2: constant eviction)
 						emit(c16Case{Kind: "subset", Mask: mask, Uses: uses, Base: base, Thorough: tier == "thorough", Cache: 1 + (mask+bi)%2})
+					}
+					if !grp && (mask+bi)%2 == 0 {
+						// with a custom NotFound handler (and no global middleware): matched and unmatched requests alternate
+						emit(c16Case{Kind: "subset", Mask: mask, Uses: uses, Base: base, Thorough: tier == "thorough", CustomNF: true})
 					}
 					if grp && (mask+bi)%4 == 0 {
 						emit(c16Case{Kind: "subset", Mask: mask, Uses: uses, Base: base, Group: true, Root: true, Thorough: tier == "thorough"})
@@ -355,6 +361,9 @@ func c16Run(c c16Case, st *fw.Stats) []fw.Viol {
 	if c.Cache > 0 {
 		desc += fmt.Sprintf(" on a router with a route cache of capacity %d", c.Cache)
 	}
+	if c.CustomNF {
+		desc += " on a router with a custom NotFound handler"
+	}
 
 	// expected table
 	var defs []refmodel.RouteDef
@@ -464,6 +473,12 @@ func c16Run(c c16Case, st *fw.Stats) []fw.Viol {
 			if pv != nil {
 				add("resource:panic", fmt.Sprintf("%s: registration panicked: %v", desc, pv))
 				return vs
+			}
+			if c.CustomNF {
+				r.NotFound(func(x *rux.Context) {
+					rec.log = append(rec.log, "custom-not-found")
+					x.Text(404, "nf")
+				})
 			}
 			// the order actually taken, from rux's own debug print of each registered route
 			var got []string
@@ -586,7 +601,7 @@ func c16CheckRouter(r *rux.Router, rec *c16Rec, c c16Case, desc string, impl []s
 			seq = append(seq, mp{m, p})
 		}
 	}
-	if c.Cache > 0 {
+	if c.Cache > 0 || c.CustomNF {
 		// a second round, path-major and backwards: every request is repeated after the others had their turn in the cache
 		for pi := len(probes) - 1; pi >= 0; pi-- {
 			for mi := len(refmodel.Methods) - 1; mi >= 0; mi-- {
@@ -619,6 +634,8 @@ func c16CheckRouter(r *rux.Router, rec *c16Rec, c c16Case, desc string, impl []s
 					wantLog = append(wantLog, "mw:"+a, "mw2:"+a)
 				}
 				wantLog = append(wantLog, "action:"+a+":"+id)
+			} else if c.CustomNF {
+				wantLog = append(wantLog, "custom-not-found")
 			}
 			if strings.Join(rec.log, " ") != strings.Join(wantLog, " ") {
 				sig := "resource:dispatch"
@@ -640,11 +657,11 @@ var c16Spec = fw.Spec[c16Case]{
 	Workers: 1,
 	// the only nondeterminism is Go's map iteration order inside Resource (code under test): a confirmation replay may be retried
 	ReplayAttempts: 40,
-	Rule: "complete enumeration: all 128 subsets of the seven actions as controller method sets (generated types) x with/without Uses() (two distinct middleware, closures of one function literal, for every action, implemented or not) x base in {/, /api/, \"\", /{t}/, /{t:[a-z]{4}}/ (a variable in the base path, plain and with a regex)}; four resources at once next to a more specific dynamic route of the same first segment; three routers built from ONE slice of option values (each of the 3 caching options, capacities 1, 2, 16), two of them registering the same resource type with their own controller instance and requested alternately; a resource registered after its paths were already served by generic routes (route cache off / 2 / 64) and after a middleware-less group whose body called Use x outside a group / inside Group(/g) / inside Group(/) (group middleware passed with spare capacity) (+ outside a group on a router with a route cache of capacity 1 or 2, all probes issued twice in two orders); the same controller (whose Uses() table is one shared map) registered twice; the registration order inside Resource is DRIVEN through the insertion order of the exported rux.RESTFulActions map and OBSERVED from rux's own debug print; registration is repeated until every permutation of the implemented actions (k<=4, thorough k<=6 on the plain base; all rotations of two base orders beyond) has been observed, or until >12 differently driven registrations all showed one and the same order of >=2 actions (the order then does not come from the map: counter registration_order_independent_of_map_order); " +
+	Rule: "complete enumeration: all 128 subsets of the seven actions as controller method sets (generated types) x with/without Uses() (two distinct middleware, closures of one function literal, for every action, implemented or not) x base in {/, /api/, \"\", /{t}/, /{t:[a-z]{4}}/ (a variable in the base path, plain and with a regex), /v1.2/ (a dot in the base path)}; four resources at once next to a more specific dynamic route of the same first segment; three routers built from ONE slice of option values (each of the 3 caching options, capacities 1, 2, 16), two of them registering the same resource type with their own controller instance and requested alternately; a resource registered after its paths were already served by generic routes (route cache off / 2 / 64) and after a middleware-less group whose body called Use x outside a group / inside Group(/g) / inside Group(/) (group middleware passed with spare capacity) (+ outside a group on a router with a route cache of capacity 1 or 2, all probes issued twice in two orders) (+ outside a group on a router with a custom NotFound handler and no global middleware, all probes issued twice in two orders); the same controller (whose Uses() table is one shared map) registered twice; the registration order inside Resource is DRIVEN through the insertion order of the exported rux.RESTFulActions map and OBSERVED from rux's own debug print; registration is repeated until every permutation of the implemented actions (k<=4, thorough k<=6 on the plain base; all rotations of two base orders beyond) has been observed, or until >12 differently driven registrations all showed one and the same order of >=2 actions (the order then does not come from the map: counter registration_order_independent_of_map_order); " +
 		"per observed order: Routes()/NamedRoutes() equal the documented table exactly, all 9 methods x 8 probe paths dispatch as the reference resolver says over that table (create never served by show, nothing else reachable), per-action middleware runs only for its action; non-pointer / non-struct / wrong-shaped controllers; non-trivial = a distinct (subset, order) registration",
 	Assume: []string{"runs single-threaded: RESTFulActions, the debug switch and the colour output are process-global", "Go's small-map iteration starts at a random offset of the insertion order; an order not seen within 400 draws is reported as a cap, never as a violation"},
 	Bounds: func(tier string) map[string]any {
-		return map[string]any{"subsets": 128, "uses": 2, "bases": 5, "group": 2, "quick_takes_every_second_combination": tier == "quick"}
+		return map[string]any{"subsets": 128, "uses": 2, "bases": 6, "group": 2, "quick_takes_every_second_combination": tier == "quick"}
 	},
 	Gen:   c16Gen,
 	Run:   c16Run,
